@@ -27,6 +27,8 @@ for m in sorted(glob.glob(os.path.join(ROOT, "seeded/*/meta.json"))):
     j = json.load(open(m)); name = os.path.basename(os.path.dirname(m))
     rows.append(f"| {name} | {j.get('property')} | {str(j.get('summary',''))[:220].replace('|','/')} | {str(j.get('needs',''))[:160].replace('|','/')} | {j.get('demo_without_change')}→{j.get('demo_with_change')} | {j.get('existing_tests')} | {j.get('checks_run')} → detected: {j.get('detected')} |")
 s_seeded = "\n".join(rows) if len(rows) > 2 else "(none confirmed yet)"
+pend = os.path.join(ROOT, "tools/design_misses_pending.md")
+sec = sec.replace("@@MISSES_PENDING@@", open(pend).read().rstrip() if os.path.exists(pend) else "")
 sec = sec.replace("@@CLAIMED@@", s_claimed).replace("@@FIXED@@", s_fixed).replace("@@KNOWN@@", s_known).replace("@@SEEDED@@", s_seeded)
 p = os.path.join(ROOT, "DESIGN.md"); d = open(p).read()
 B, E = "<!-- SECTION0-BEGIN -->", "<!-- SECTION0-END -->"
